@@ -136,6 +136,13 @@ func loadGen(repo string, patterns []string, stubDir string) (*Gen, error) {
 func (g *Gen) computeSentinels() {
 	g.sentinels = map[*ssa.Global]bool{}
 	for path, sp := range g.spkgs {
+		if path == "io" {
+			// io.EOF is initialised the same way (`var EOF = errors.New("EOF")`); dependencies are loaded without bodies,
+			// so this one is taken on trust (listed among the assumptions of every check)
+			if gl, ok := sp.Members["EOF"].(*ssa.Global); ok {
+				g.sentinels[gl] = true
+			}
+		}
 		if !strings.HasPrefix(path, modulePath) {
 			continue
 		}
@@ -191,6 +198,9 @@ func (x *Exec) sentinelTerm(gl *ssa.Global) string {
 	vc := x.vc
 	c := quote("sentinel$" + gl.Pkg.Pkg.Path() + "." + gl.Name())
 	if !vc.isDeclared(c) {
+		if !strings.HasPrefix(gl.Pkg.Pkg.Path(), modulePath) {
+			vc.note(gl.Pkg.Pkg.Path() + "." + gl.Name() + " assumed to be a non-nil constant error, distinct from this module's sentinel errors (standard library initialiser not examined)")
+		}
 		vc.declConst(c, sAny)
 		vc.declFun("spec$sentinel", []string{sAny}, sBool)
 		vc.assert(and(not(eq(app("a_typ", c), "0")), app("spec$sentinel", c)))
